@@ -276,6 +276,10 @@ class Stack:
     def ca_subscribe_request(self, i, cb):
         self.call(('ca_subreq', i, cb.cid), lambda: self.cas[i].subscribe_request(cb.fire))
 
+    def ca_unsubscribe_request(self, i, cid):
+        # (a fresh bound-method object of the same callback, as an application's `ca.unsubscribe_request(self.on_request)` is)
+        self.call(('ca_unsubreq', i, cid), lambda: self.cas[i].unsubscribe_request(self.cbs[cid].fire))
+
     # ------------------------------------------------------------------ state summary
     def summary(self):
         e = self.ecu
